@@ -1,10 +1,10 @@
 --------------------------- MODULE Trace_Attachments ---------------------------
 (* Validation of traces recorded from a real database (harness/db/c14_attachments_test.go).
    Lines:
-     {a:"Reset", beh, allow, eccv, lim, clen, S}           both documents absent (S is recorded all the same)
+     {a:"Reset", beh, allow, eccv, lim, clen, cenc, celen, S}           both documents absent (S is recorded all the same)
      {a:"W"|"B"|"T"|"E", i, k, d, r, p, s, h, ok, e, S}    the inputs of the step and whether the real call succeeded
    S = the REAL state after the step:
-     docs[d] = {tree:[[rev, parent, deleted]], cur, leaves, atts:[{l,n,dg,ln,rp,ver,ex,rd}], api:[{l,n,dg,ln,rd}], apierr:[{l,v,e}]}
+     docs[d] = {tree:[[rev, parent, deleted]], cur, leaves, atts:[{l,n,dg,ln,enc,eln,rp,ver,ex,rd}], api:[{l,n,dg,ln,enc,eln,rd}], apierr:[{l,v,e}]}
      blob    = [[doc, content of the key's digest, content of the stored bytes]]
    Pass P (PSpec): implementation variables := recorded real state, ghosts (what was written where, residue of refused writes, the
            documents hit by the named deviation) advance by GhostCommit from the recorded inputs.  LeafSafe, Collected and
@@ -36,11 +36,11 @@ HOf(r) == IF Has(r, "h") THEN r.h ELSE 0
 (* lists per leaf from the recorded entries *)
 Ent(x, lf) == {i \in 1..Len(x) : x[i].l = lf}
 ListOf(x, lf) == [n \in {x[i].n : i \in Ent(x, lf)} |->
-                    LET i == CHOOSE j \in Ent(x, lf) : x[j].n = n IN [c |-> x[i].dg, pos |-> x[i].rp, len |-> x[i].ln]]
+                    LET i == CHOOSE j \in Ent(x, lf) : x[j].n = n IN [c |-> x[i].dg, pos |-> x[i].rp, len |-> x[i].ln, enc |-> x[i].enc, elen |-> x[i].eln]]
 RdListOf(x, lf) == [n \in {x[i].n : i \in Ent(x, lf)} |->
                       LET i == CHOOSE j \in Ent(x, lf) : x[j].n = n IN IF x[i].ex THEN x[i].rd ELSE -1]
 ApiListOf(x, lf) == [n \in {x[i].n : i \in Ent(x, lf)} |->
-                       LET i == CHOOSE j \in Ent(x, lf) : x[j].n = n IN [c |-> x[i].dg, len |-> x[i].ln, rd |-> x[i].rd]]
+                       LET i == CHOOSE j \in Ent(x, lf) : x[j].n = n IN [c |-> x[i].dg, len |-> x[i].ln, rd |-> x[i].rd, enc |-> x[i].enc, elen |-> x[i].eln]]
 ApiErr(D) == {D.apierr[i].l : i \in 1..Len(D.apierr)}
 
 Ev(a) == l <= TraceLen /\ Trace[l].a = a /\ l' = l + 1
@@ -59,6 +59,7 @@ TInit == Init /\ l = 1 /\ bi = -1 /\ diverged = FALSE
 
 Reset == /\ Ev("Reset")
          /\ allow' = R.allow /\ eccv' = R.eccv /\ clen' = [c \in Contents |-> R.clen[c]]
+         /\ cenc' = [c \in Contents |-> R.cenc[c]] /\ celen' = [c \in Contents |-> R.celen[c]]
          /\ Logged
          /\ gen' = (0 :> 0) /\ cls' = (0 :> 1) /\ nr' = 0 /\ pend' = None /\ inner' = 0 /\ old' = [d \in Docs |-> <<>>]
          /\ want' = <<>> /\ residue' = {} /\ tainted' = {} /\ dev' = {} /\ settled' = FALSE
